@@ -168,7 +168,8 @@ def mk_incoming(mid, m):
     if m.get('appseq') is not None:
         aps = wsd_types.AppSequenceType()
         aps.InstanceId = m['appseq']
-        aps.MessageNumber = 1
+        aps.MessageNumber = m.get('aps_msgno', 1)
+        aps.SequenceId = m.get('aps_seqid')
         cm.p_msg.add_header_element(aps.as_etree_node(nsh.WSD.tag('AppSequence'), ns_map=nsh.partial_map(nsh.WSD)))
     data = cm.serialize()
     for tag in m.get('strip', []):       # "missing optional parts": remove an empty optional element from the datagram
@@ -206,6 +207,7 @@ class FakeRandom:
 
 
 def run_seq(c):
+    wsdimpl.allow_missing_app_sequence = bool(c.get('allow', False))     # module option, a valid configuration
     fr = FakeRandom()
     wsdimpl.random = fr
     wsd = wsdimpl.WSDiscovery('127.0.0.1')
